@@ -79,6 +79,14 @@ pub struct CdnEndpoint {
     pub max_hosts: Option<u32>,
 }
 
+/// First two directory components of the CDN hash layout (`ab/cd/abcd...`).
+///
+/// Tolerates keys shorter than two bytes (and non-ASCII names), so that building
+/// a URL or cache key never panics on a slice out of range.
+fn hash_dirs(hex: &str) -> (&str, &str) {
+    (hex.get(..2).unwrap_or(hex), hex.get(2..4).unwrap_or(""))
+}
+
 /// Parse a CDN server URL string, extracting the hostname and query parameters.
 ///
 /// Agent.exe's `ParseCdnServerUrl` extracts `?fallback=1`, `?strict=1`, and
@@ -168,8 +176,8 @@ impl CdnClient {
             endpoint.host,
             base_path,
             content_type,
-            &hex_key[..2],
-            &hex_key[2..4],
+            hash_dirs(&hex_key).0,
+            hash_dirs(&hex_key).1,
             hex_key
         )
     }
@@ -190,8 +198,8 @@ impl CdnClient {
             "cdn/{}/{}/{}/{}/{}",
             normalize_cdn_path(&endpoint.path),
             content_type,
-            &hex_key[..2],
-            &hex_key[2..4],
+            hash_dirs(&hex_key).0,
+            hash_dirs(&hex_key).1,
             hex_key
         );
 
@@ -397,8 +405,8 @@ impl CdnClient {
         let cache_key = format!(
             "cdn/{}/data/{}/{}/{}.index",
             normalize_cdn_path(&endpoint.path),
-            &archive_key[..2],
-            &archive_key[2..4],
+            hash_dirs(archive_key).0,
+            hash_dirs(archive_key).1,
             archive_key
         );
 
@@ -417,8 +425,8 @@ impl CdnClient {
             scheme,
             endpoint.host,
             base_path,
-            &archive_key[..2],
-            &archive_key[2..4],
+            hash_dirs(archive_key).0,
+            hash_dirs(archive_key).1,
             archive_key
         );
 
@@ -478,8 +486,8 @@ impl CdnClient {
             scheme,
             endpoint.host,
             base_path,
-            &archive_key[..2],
-            &archive_key[2..4],
+            hash_dirs(archive_key).0,
+            hash_dirs(archive_key).1,
             archive_key
         );
 
